@@ -303,7 +303,14 @@ class World:
                 return o, ("obj", o)
             return o, ("D", [(k[1], v[1]) for k, v in pairs])
         tag = "L" if "L" in a else "T" if "T" in a else "S"
-        parts = [self.materialize(x) for x in a[tag]]
+        if a.get("same") and tag in ("L", "T") and a[tag]:
+            # leading children that are equal specs are one object at several positions
+            first = self.materialize(a[tag][0])
+            parts = []
+            for x in a[tag]:
+                parts.append(first if (x == a[tag][0] and len(parts) == len([p for p in parts if p is first])) else self.materialize(x))
+        else:
+            parts = [self.materialize(x) for x in a[tag]]
         o = self._shared(a, {"L": list, "T": tuple, "S": set}[tag](p[0] for p in parts))
         if not specs.has_ref(a):
             return o, ("obj", o)
